@@ -943,6 +943,12 @@ class _World:
             'slice_overlap': lambda other, o=o: frozenset((id(o), id(other))) in self.ov,
         })
         a, p = [], par
+        top_sig = o
+        while p is not None and 'Signal' in p.tags:
+            top_sig = p
+            p = p.methods['get_parent_object']()
+        o.methods['get_top_level_signal'] = lambda t=top_sig: t
+        a, p = [], par
         while p is not None and 'Signal' in p.tags:
             a.append(p)
             p = p.methods['get_parent_object']()
@@ -1105,9 +1111,19 @@ def rule_seed(repo):
             o.methods['get_host_component'] = lambda host=host: host
             mem[(cls, hname)] = o
             allm.append(o)
-    nets = [ASet(allm[0:2]), ASet(allm[2:5]), ASet(allm[5:9])]      # nets of 2, 3 and 4 members
     for c_ in (S, child, ph):
         c_.methods.update({'is_signal': lambda: False, 'is_component': lambda: True, 'get_parent_object': lambda: None})
+    # ports that sit in an interface of their host: the host component is not their parent object
+    ifc_members = []
+    for hname, host, cls in (('top', S, 'InPort'), ('placeholder', ph, 'OutPort')):
+        ifc = AObj(f"ifc@{hname}", tags=['Interface'], absent=(),
+                   methods={'is_signal': lambda: False, 'is_component': lambda: False, 'is_interface': lambda: True,
+                            'get_parent_object': lambda host=host: host, 'get_host_component': lambda host=host: host})
+        o = w.sig(f"{cls}@ifc@{hname}", ifc, cls)
+        o.methods['get_host_component'] = lambda host=host: host
+        mem[(cls, 'ifc@' + hname)] = o
+        ifc_members.append(o)
+    nets = [ASet(allm[0:2]), ASet(allm[2:5]), ASet(allm[5:9]), ASet(ifc_members)]      # nets of 2, 3, 4 and 2 members
     sig0 = w.sig('s.st', S)
     fld1 = w.sig('s.st.a', sig0)
     fld2 = w.sig('s.st.a.b', fld1)
@@ -1137,7 +1153,11 @@ def rule_seed(repo):
                sl: (True, "a slice written by an update block is a propagatable writer"),
                sx: (False, "the signal whose slice is written is an unpropagatable writer"),
                mem[('InPort', 'top')]: (True, "an InPort of the top-level component is driven from outside: propagatable writer"),
-               mem[('OutPort', 'placeholder')]: (True, "an OutPort of a Placeholder is driven by the black box: propagatable writer")}
+               mem[('OutPort', 'placeholder')]: (True, "an OutPort of a Placeholder is driven by the black box: propagatable writer"),
+               mem[('InPort', 'ifc@top')]: (True, "an InPort in an interface of the top-level component is driven from outside: "
+                                                  "propagatable writer"),
+               mem[('OutPort', 'ifc@placeholder')]: (True, "an OutPort in an interface of a Placeholder is driven by the black "
+                                                           "box: propagatable writer")}
         for o in list(exp) + [x for x in got if x not in exp]:
             want = exp.get(o, (None, "this object is not a legal driver (only top-level InPorts, placeholder OutPorts and "
                                      "objects written by update blocks, with their signal ancestors, are seeds)"))
